@@ -284,7 +284,22 @@ def case_routes(spec):
                 probs.append("point lookup of a %s of tile %s returned %s, which does not contain the point (%.3g rad outside)" % ("corner / edge midpoint", p, tuple(t4.pos), -sd))
         if len(probs) > 12:
             break
-    r = dict(counters=dict(route_comparisons=n, routes_cases=1), nontrivial=True)
+    # a lookup that is cut short by an asynchronous exception (Ctrl-C, a raising timeout handler) and then repeated: the repeated
+    # lookup is a route like any other
+    from vlib import interrupt
+
+    n_int = 0
+    for _ in range(8):
+        pa, pb = R.choice(pos_list), R.choice(pos_list)
+        (la, ba), (lb, bb) = [rt.lonlat(rt.tile_centre(*rt.tile_corners(q, pl))) for q in (pa, pb)]
+        toast.toast_tile_for_point(pa[0], float(ba), float(la) % (2 * np.pi), coordsys=cs)
+        k = R.choice([1, 2, 3, 5, 8, 13, 30])
+        n_int += int(interrupt.interrupted(lambda: toast.toast_tile_for_point(pb[0], float(bb), float(lb) % (2 * np.pi), coordsys=cs), k))
+        t5 = toast.toast_tile_for_point(pb[0], float(bb), float(lb) % (2 * np.pi), coordsys=cs)
+        n += 1
+        if tuple(t5.pos) != pb:
+            probs.append("point lookup at the centre of tile %s, repeated after it had been interrupted (at call #%d; previous lookup: centre of %s), returned position %s" % (pb, k, pa, tuple(t5.pos)))
+    r = dict(counters=dict(route_comparisons=n, routes_cases=1, interrupted_lookups=n_int), nontrivial=True)
     if probs:
         r.update(status="violation", key="toast-routes:" + spec["cs"], detail="; ".join(probs[:8]))
     return r
